@@ -22,7 +22,7 @@ func newSrvWorld(r *Run, cfg srvCfg) *srvWorld {
 		cfg.MaxMsgs += 2
 		cfg.MaxBatch += 2
 	}
-	w := &srvWorld{r: r, cfg: cfg, byTag: map[string]*member{}}
+	w := &srvWorld{r: r, cfg: cfg, byTag: map[string]*member{}, baseCancelSeq: -1}
 	strat := r.drawStrategy()
 	w.setup()
 	w.generate()
@@ -156,7 +156,13 @@ func scenarioC06(r *Run) {
 		}
 		ref, ok := replies[m]
 		if !ok {
-			continue // its batch is not complete yet (a sibling is still running): nothing to judge
+			if w.stopSeq < 0 && w.running == 0 {
+				// every handler has returned and the connection is up: its message
+				// must have been answered by now
+				r.Fail("cancelled-waiter-wrong-reply", "call %s (id %s) was cancelled while waiting for a slot and has not been answered at all, although every handler has returned and the connection is up", m.Tag, m.ID)
+				return
+			}
+			continue // the connection ended first: nothing to judge
 		}
 		if !ref.obj.HasErr || ref.obj.Code != int(jrpc2.Cancelled) {
 			r.Fail("cancelled-waiter-wrong-reply", "call %s (id %s) was cancelled while waiting for a slot; want a request-cancelled (-32097) reply, got %+v (found=%v)", m.Tag, m.ID, ref.obj, ok)
@@ -201,7 +207,7 @@ func (w *srvWorld) provenWaiter() *member {
 
 // C07: id reuse from a small pool, CancelRequest at arbitrary points.
 func scenarioC07(r *Run) {
-	w := newSrvWorld(r, srvCfg{Prop: "C07", MaxMsgs: 6, MaxBatch: 3, IDPool: 5, Invalid: true, Unknown: true, Cancels: 3, HoldP: 0.4, NoteP: 0.15, KMax: 4})
+	w := newSrvWorld(r, srvCfg{Prop: "C07", MaxMsgs: 6, MaxBatch: 3, IDPool: 5, Invalid: true, Unknown: true, Cancels: 3, HoldP: 0.4, NoteP: 0.15, KMax: 4, BaseCtx: true})
 	w.start()
 	if !w.drive(nil) {
 		return
